@@ -1,6 +1,7 @@
 From Coq Require Import List NArith Bool Arith.
 Import ListNotations.
-Require Import MV.Common.Interleave MV.C02.Model MV.C02.Proofs MV.C02.Proofs2 MV.C02.Exec MV.C02.ExecProofs.
+Require Import MV.Common.Interleave MV.C02.Model MV.C02.Proofs MV.C02.Proofs2 MV.C02.Exec MV.C02.ExecProofs
+  MV.C02.ProofsWalk.
 Open Scope N_scope.
 Require Import MV.C02.Properties.
 
@@ -34,10 +35,5 @@ Check (C02_before_install_noop : forall ps c, reach ps c ->
   (forall t s0, In (GDisp t None s0) (glog (fst c)) -> s0 <> 2) /\
   (forall t r s0, In (GDisp t (Some r) s0) (glog (fst c)) -> s0 = 2)).
 Print Assumptions C02_before_install_noop.
-Check (C02_spec_clauses_on_model_partial : forall c : case,
-  let '(tr, rs, done) := run_case c in
-  (length (oks_of rs) <= 1)%nat /\
-  all2 follows (fst c) rs = true /\
-  loads_ok rs = true /\
-  (done = true -> (exists u p r, nth_error (fst c) u = Some p /\ In (CSet r) p) -> length (oks_of rs) = 1%nat)).
-Print Assumptions C02_spec_clauses_on_model_partial.
+Check (C02_spec_ok_on_model : forall c : case, spec_ok c (run_case c) = true).
+Print Assumptions C02_spec_ok_on_model.
